@@ -986,6 +986,9 @@ def untake(x, idx, vs):
         idx = onp.array(idx, dtype="int64") if len(idx) == 0 else onp.array(idx)
 
     def mut_add(A):
+        if not isinstance(A, onp.ndarray):
+            # the running total of a 0-d value can be an (immutable) NumPy scalar
+            A = onp.array(A)
         onp.add.at(A, idx, x)
         return A
 
